@@ -16,7 +16,8 @@ RULE = ("bool field (default True/False/required; plain, custom negative_prefix 
         "{bare, negative, valued (every vocabulary word in 3 casings, non-words, blank-padded words), value on the negative} "
         "with both `--o v` and `--o=v` spellings; every single-occurrence case is enumerated, longer sequences are sampled from "
         "VERIF_SEED. Non-trivial = the parser was set up and at least one occurrence was written; distinct by full case.")
-TRUSTED = ["argparse delivers one occurrence to the action as modelled in Model/BoolFlag.v eval_occ (type= applied first, nargs='?')"]
+TRUSTED = ["Model/MiniPy.v (the interpreter is the reading of Python for the dumped body of BooleanOptionalAction.__init__ (negative option strings); itself checked against CPython by ./check MINIPY) and harness/translate/minipy.py (syntax-to-syntax dump, fail closed)",
+           "argparse delivers one occurrence to the action as modelled in Model/BoolFlag.v eval_occ (type= applied first, nargs='?')"]
 ASSUMPTIONS = ["tokens written as values never start with '-' (argparse would lex them as options)"]
 
 WORDS_T = ["yes", "true", "t", "y", "1"]
